@@ -6,7 +6,7 @@ V = os.path.dirname(os.path.dirname(os.path.abspath(__file__)))
 BASE = open("/root/.vp/repo_root_sha").read().strip()
 log = subprocess.check_output(["git", "-C", "/repo", "log", "--reverse", "--format=%h\t%s", BASE + "..HEAD"], text=True).splitlines()
 RULES = [  # first match wins: (regex on subject, property)
-    (r"NULL-object guard|orders a NULL (iterator|socket) first", "C16"),
+    (r"NULL-object guard|orders a NULL (iterator|socket) first|NULL object argument", "C16"),
     (r"mbuff", "C07"),
     (r"init_from_fd", "C01 (also needed by C19)"),
     (r"str/ustr|spif_str|spif_ustr", "C01"),
